@@ -76,13 +76,16 @@ def execute(ch, workload):
         ec.send_queue = asyncio.Queue()
         ec.transport = tp
 
+        fresh = itertools.count(2000)
+
         def randint(a, b):
-            dom = [2000, 2001, 2002, 2003, 2004]
-            free = [d for d in dom if d not in ec.wait_futures]
-            used = [d for d in dom if d in ec.wait_futures]
-            opts = free[:1] + used
-            c = ch.choose(len(opts), "index")
-            return opts[c]
+            # default: an index never used before in this execution (a
+            # duplicate of an old frame must not alias a new one: with the
+            # real 10^9 range that has negligible probability); deviation:
+            # an index that is in flight right now (the code must retry)
+            used = sorted(ec.wait_futures)
+            c = ch.choose(1 + len(used), "index")
+            return used[c - 1] if c else next(fresh)
         ecmod.randint = randint
         saved_ef = ecmod.ensure_future
 
@@ -302,18 +305,22 @@ def judge(workload, ch, obs, res):
 
 
 def workloads(ctx):
+    """-> [(workload, bound)]"""
     out = []
-    maxn = 3
-    for n in range(1, maxn + 1):
+    b = 2 if ctx.quick else 3
+    for n in (1, 2):
         for sizes in itertools.product(SIZES, repeat=n):
-            if ctx.quick and n == 3 and len(set(sizes)) > 2:
-                continue
             for n_initial in sorted({0, 1, n}):
                 for may_cancel in (False, True):
-                    out.append((sizes, n_initial, may_cancel))
-    # count limit: 16+ tiny requests at once
-    out.append(((2,) * 17, 17, False))
-    out.append(((2,) * 17, 17, True))
+                    out.append(((sizes, n_initial, may_cancel), b))
+    s3 = [2, 1400, 1473] if ctx.quick else SIZES
+    for sizes in itertools.product(s3, repeat=3):
+        for n_initial in ((0, 3) if ctx.quick else (0, 1, 3)):
+            for may_cancel in (False, True):
+                out.append(((sizes, n_initial, may_cancel), 2))
+    # count limit: 17 tiny requests at once
+    out.append((((2,) * 17, 17, False), 2))
+    out.append((((2,) * 17, 17, True), 1))
     return out
 
 
@@ -346,8 +353,7 @@ def _work(item, res):
         res.outcomes.add(tuple(sorted((v[0] for v in obs["outcomes"].values())))
                          + (bool(obs["stall"]),))
         judge(workload, ch, obs, res)
-    b = bound if len(workload[0]) <= 3 else min(bound, 1)
-    n, capped = explore.dfs(run, b, on_exec, max_execs=60000)
+    n, capped = explore.dfs(run, bound, on_exec, max_execs=200000)
     if capped:
         res.caps_hit.append(f"workload {workload}: capped at {n} executions")
     # determinism: replay the default execution and compare
@@ -359,7 +365,7 @@ def _work(item, res):
 
 def run(ctx):
     bound = 2 if ctx.quick else 3
-    items = [(w, bound) for w in workloads(ctx)]
+    items = workloads(ctx)
     res = core.pmap(ctx, work, items, chunk=1)
     res.cov["states"] = len(res.nontrivial)
     res.cov["traces_validated_against_impl"] = res.cov.get("evaluations", 0)
